@@ -49,6 +49,10 @@ type Options struct {
 	InitialState  string        // DISC | OFFLINE
 	EchoNow       bool          // "CMD now VALUE" echoes (ARDOP_Win style) instead of "CMD VALUE"
 	TrailingSpace bool          // ARDOPc puts a trailing space after NEWSTATE values
+	// DialGreeting: ARQ data frames delivered directly behind the CONNECTED report (of an ARQCALL: a remote
+	// station that greets at once; of an incoming call: the caller's first frames), i.e. before any further
+	// query of the host is answered.
+	DialGreeting [][]byte
 	Split         Splitter      // segmentation of frames the simulator originates itself
 	PiecePause    time.Duration // TCP: pause between the pieces of one frame
 	ProbeAfter    time.Duration // after CRCFAULT: unsolicited BUFFER if nothing is retransmitted
@@ -636,6 +640,9 @@ func (s *Sim) handleCommand(text string) {
 		after = func() {
 			s.newState("ISS")
 			s.SendLine("CONNECTED "+target+" 500", nil)
+			for _, p := range s.opt.DialGreeting {
+				s.SendData("ARQ", p, nil)
+			}
 		}
 	case "DISCONNECT":
 		s.count("disconnect_received", 1)
@@ -672,6 +679,9 @@ func (s *Sim) Inbound(remote, target string) {
 	s.SendLine("TARGET "+target, nil)
 	s.newState("IRS")
 	s.SendLine("CONNECTED "+remote+" 500", nil)
+	for _, p := range s.opt.DialGreeting {
+		s.SendData("ARQ", p, nil) // the calling station's first frames follow the report directly
+	}
 }
 
 // RemoteDisconnect ends the connection from the TNC side (the remote station disconnected).
